@@ -2,6 +2,7 @@ package muxstate
 
 import (
 	"fmt"
+	"go/token"
 	"go/types"
 	"sort"
 	"strings"
@@ -27,6 +28,91 @@ func (a *anchors) generators() (gens []*ssa.Function, sums map[*ssa.Function]Sum
 		}
 		sums[f] = s
 		gens = append(gens, f)
+	}
+	// A helper carved out of a generator — an unexported Muxer method with effects whose every use is a plain call from other Muxer
+	// methods on their own receiver, none of which writes the helper's output buffer to m.w — is folded into its callers: its effects count as effects of the call instruction, its output
+	// buffer as the caller's. The caller then answers for them (part 1 on its own failing exits, part 2 in ITS callers), which is
+	// conservative: whatever the helper may have done before failing is taken to have happened.
+	for round := 0; round < 3; round++ {
+		changed := false
+		for _, h := range append([]*ssa.Function{}, gens...) {
+			if token.IsExported(h.Name()) {
+				continue
+			}
+			type site struct {
+				f *ssa.Function
+				c *ssa.Call
+			}
+			var sites []site
+			ok := true
+			for _, f := range nonTestFuncs(a.p) {
+				calls, other := callsTo(f, h)
+				if len(other) > 0 {
+					ok = false
+				}
+				for _, c := range calls {
+					if f == h || recvNamed(f) != "Muxer" || f.Parent() != nil || recv(f) == nil || len(c.Call.Args) == 0 || c.Call.Args[0] != recv(f) {
+						ok = false
+					}
+					// a caller that emits h's output buffer is the emitter the pairing rule is about, not a generator h is part of
+					for _, fb := range f.Blocks {
+						for _, fin := range fb.Instrs {
+							if w, buf := a.isWriterWrite(fin, recv(f)); w && (buf == sums[h].OutBuf || sums[h].OutBuf == nil) {
+								ok = false
+							}
+						}
+					}
+					sites = append(sites, site{f, c})
+				}
+				// used as a value?
+				for _, b := range f.Blocks {
+					for _, in := range b.Instrs {
+						for _, op := range in.Operands(nil) {
+							if op != nil && *op == ssa.Value(h) {
+								if ci, isCall := in.(ssa.CallInstruction); !isCall || ci.Common().Value != ssa.Value(h) {
+									ok = false
+								}
+							}
+						}
+					}
+				}
+			}
+			if !ok || len(sites) == 0 {
+				continue
+			}
+			hs := sums[h]
+			for _, st := range sites {
+				cs, had := sums[st.f]
+				if !had {
+					cs = a.Summarize(st.f)
+					gens = append(gens, st.f)
+				}
+				for _, ef := range hs.Effects {
+					ne := Effect{Name: ef.Name, Instr: st.c, Field: ef.Field}
+					cs.Effects = append(cs.Effects, ne)
+					for i := range cs.Exits {
+						if ssau.Reaches(st.c.Block(), cs.Exits[i].Ret.Block()) {
+							cs.Exits[i].May = append(cs.Exits[i].May, ne)
+						}
+					}
+				}
+				if cs.OutBuf == nil && hs.OutBuf != nil {
+					cs.OutBuf, cs.OutNote = hs.OutBuf, ""
+				}
+				sums[st.f] = cs
+			}
+			delete(sums, h)
+			for i, g := range gens {
+				if g == h {
+					gens = append(gens[:i], gens[i+1:]...)
+					break
+				}
+			}
+			changed = true
+		}
+		if !changed {
+			break
+		}
 	}
 	return
 }
